@@ -153,10 +153,10 @@ fn replay_earlier(g: &mut fn_graph::FnGraph<crate::model::TestFn>, e: &Earlier) 
         Earlier::Run { cfg, acts } => {
             if cfg.api.shape.is_stream() {
                 let mut c = Consumer::new(&*g, cfg);
-                drive(&mut c, Schedule::Strict(acts));
+                drive(&mut c, Schedule::Strict(acts), false);
             } else {
                 let mut r = Runner::new(GRef::Mut(g), cfg);
-                drive(&mut r, Schedule::Strict(acts));
+                drive(&mut r, Schedule::Strict(acts), false);
             }
         }
     }
@@ -490,7 +490,7 @@ pub fn eval_multi(case: &MultiCase, lenient: bool) -> (MultiEval, Vec<(usize, Ac
             let acts = s.acts().to_vec();
             let g2 = build_graph(&case.spec);
             let mut solo = make_stepper(&g2, &case.cfgs[i]);
-            let ok = drive(solo.as_mut(), Schedule::Strict(&acts));
+            let ok = drive(solo.as_mut(), Schedule::Strict(&acts), false);
             execs += 1;
             let sret = final_ret(solo.as_ref());
             if !ok || solo.trace() != traces[i] || sret != rets[i] {
